@@ -47,6 +47,18 @@ class OOBData(Exception):
         self.data = data
 
 
+class _OOBRequest:
+    """
+    What `Monitor.oob()` yields: the data, and the monitor it is meant for.
+    """
+
+    __slots__ = ["monitor", "data"]
+
+    def __init__(self, monitor: "Monitor[Any]", data: Any):
+        self.monitor = monitor
+        self.data = data
+
+
 class Monitor(Generic[T]):
     """
     A class to await a coroutine while receiving and sending OOB (out of band)
@@ -87,7 +99,11 @@ class Monitor(Generic[T]):
             while True:
                 if self.state == -1:
                     self.state = 1
-                    raise OOBData(out_value)
+                    if isinstance(out_value, _OOBRequest) and out_value.monitor is self:
+                        raise OOBData(out_value.data)
+                    # otherwise an earlier oob() never reached us: the coroutine was
+                    # being closed further down at the time, which was reported as a
+                    # RuntimeError there.  This is an ordinary suspension.
                 try:
                     in_value = yield out_value
 
@@ -172,11 +188,12 @@ class Monitor(Generic[T]):
         of those functions.  The return value once awaited will be whatever `data`
         is passed in by a subsequent `aawait()` call.
         """
-        if self.state != 1:
+        if self.state == 0:
             raise RuntimeError("Monitor not active")
-        # signal OOB data being yielded
+        # signal OOB data being yielded.  (A state of -1 here is left over from an
+        # oob() whose value was dropped because the coroutine was being closed.)
         self.state = -1
-        return (yield data)
+        return (yield _OOBRequest(self, data))
 
     async def aclose(
         self,
